@@ -91,7 +91,9 @@ def scenario(draw, tier="quick", fault=False, cooldown=False):
     if tx_hours:
         sc["clients"][0]["tx_limit"] = draw(st.sampled_from([1, 2, 4]))
     if ep and n_events > 1 and draw(st.booleans()):
-        sc["event_groups"] = {markets[0]["event_id"]: "G", markets[-1]["event_id"]: "G"}
+        # (a mapping may name only some of the events: the others keep their own event id as their group)
+        sc["event_groups"] = draw(st.sampled_from([{markets[0]["event_id"]: "G", markets[-1]["event_id"]: "G"},
+                                                   {markets[0]["event_id"]: "G"}, {markets[-1]["event_id"]: "G2"}]))
     if draw(st.integers(0, 2)) == 0:
         # strategies with DIFFERENT listener filters on the same files (each gets its own stream of the market);
         # either may be registered first
